@@ -10,6 +10,7 @@ import (
 	"testing"
 	"time"
 
+	"github.com/coreos/etcd/raft/raftpb"
 	"github.com/ethereum/go-ethereum/event"
 	"github.com/libp2p/go-libp2p-core/peer"
 	"github.com/meshplus/bitxhub-core/order"
@@ -35,7 +36,10 @@ type raftNet struct {
 	healed                       bool
 	dropped, duplicated, delayed int
 	isolated                     map[uint64]bool // replicas cut off from the others (nothing in, nothing out)
-	holdTxUntil                  time.Time       // transaction broadcasts sent before this instant arrive at it (slow gossip)
+	deaf                         map[uint64]bool // replicas whose incoming traffic is lost while what they send arrives
+	dropAppUntil                 time.Time       // log replication messages (MsgApp) sent before this instant are lost; votes and heartbeats arrive
+	droppedApp                   int
+	holdTxUntil                  time.Time // transaction broadcasts sent before this instant arrive at it (slow gossip)
 	heldTx                       int
 	partitions                   int
 }
@@ -43,7 +47,7 @@ type raftNet struct {
 func (n *raftNet) cut(a, b uint64) bool {
 	n.mu.Lock()
 	defer n.mu.Unlock()
-	return !n.healed && (n.isolated[a] || n.isolated[b])
+	return !n.healed && (n.isolated[a] || n.isolated[b] || n.deaf[b])
 }
 
 type raftReplica struct {
@@ -108,6 +112,19 @@ func (p *raftPeerMgr) deliver(to uint64, m *pb.Message) error {
 	return nil
 }
 
+// isRaftApp reports whether a consensus message is a raft MsgApp (log replication).
+func isRaftApp(m *pb.Message) bool {
+	rm := &raftproto.RaftMessage{}
+	if err := rm.Unmarshal(m.Data); err != nil || rm.Type != raftproto.RaftMessage_CONSENSUS {
+		return false
+	}
+	msg := &raftpb.Message{}
+	if err := msg.Unmarshal(rm.Data); err != nil {
+		return false
+	}
+	return msg.Type == raftpb.MsgApp
+}
+
 // isTxBroadcast reports whether a consensus message carries broadcast transactions.
 func isTxBroadcast(m *pb.Message) bool {
 	rm := &raftproto.RaftMessage{}
@@ -124,7 +141,14 @@ func (p *raftPeerMgr) AsyncSend(to orderPeerMgr.KeyType, m *pb.Message) error {
 	}
 	p.net.mu.Lock()
 	hold := time.Until(p.net.holdTxUntil)
+	noApp := time.Until(p.net.dropAppUntil) > 0 && !p.net.healed
 	p.net.mu.Unlock()
+	if noApp && isRaftApp(m) {
+		p.net.mu.Lock()
+		p.net.droppedApp++
+		p.net.mu.Unlock()
+		return nil // log replication is lost for a while (elections and heartbeats still work)
+	}
 	if hold > 0 && isTxBroadcast(m) {
 		// the gossip of transactions is slower than the consensus traffic: the broadcast arrives after the
 		// transactions were ordered, possibly after a leader change
@@ -320,7 +344,7 @@ func c20RaftProperty(t *rapid.T) {
 	size := rapid.SampledFrom([]int{1, 3, 3, 3}).Draw(t, "clusterSize")
 	base := sim.NewDir("c20raft")
 	defer removeAll(base)
-	net := &raftNet{nodes: map[uint64]*raftReplica{}, isolated: map[uint64]bool{}}
+	net := &raftNet{nodes: map[uint64]*raftReplica{}, isolated: map[uint64]bool{}, deaf: map[uint64]bool{}}
 	snap := rapid.SampledFrom([]int{3, 5, 20}).Draw(t, "snapshotCount")
 	// half of the cases have no crashes: only message faults (a partitioned follower falls behind, the leader compacts
 	// its log and ships a snapshot, the follower installs it while its executor may still hold delivered blocks)
@@ -392,6 +416,7 @@ func c20RaftProperty(t *rapid.T) {
 	keys := []*sim.Key{sim.KeyFor("ord-a"), sim.KeyFor("ord-b")}
 	next := map[int]uint64{}
 	restarts, leaderCrashes, deepPartitions, catchUpCrashes := 0, 0, 0, 0
+	interregnums, mutedLeaders := 0, 0
 	tsSeq := int64(0)
 	tsMode := rapid.IntRange(0, 2).Draw(t, "tsMode") // 0 increasing with the nonce, 1 decreasing, 2 arbitrary
 	skippedAfterRestart := 0
@@ -405,17 +430,22 @@ func c20RaftProperty(t *rapid.T) {
 			break
 		}
 		via := entry
+		olderTS := false
 		submit := func(cnt int) {
 			for i := 0; i < cnt; i++ {
 				a := rapid.IntRange(0, 1).Draw(t, "acct")
 				// the transaction's own timestamp orders the pool's ready index; clients' clocks need not agree with nonces
 				tsSeq++
 				ts := int64(100000) + tsSeq
-				switch tsMode {
-				case 1:
-					ts = int64(100000) - tsSeq
-				case 2:
-					ts = int64(100000) + int64(rapid.IntRange(-20, 20).Draw(t, "tsJitter"))
+				if olderTS {
+					ts = int64(50000) - tsSeq // a client whose clock is behind: sorts before everything the pool holds
+				} else {
+					switch tsMode {
+					case 1:
+						ts = int64(100000) - tsSeq
+					case 2:
+						ts = int64(100000) + int64(rapid.IntRange(-20, 20).Draw(t, "tsJitter"))
+					}
 				}
 				tx := orderTxTS(keys[a], next[a], 0, ts)
 				done := make(chan error, 1)
@@ -478,7 +508,9 @@ func c20RaftProperty(t *rapid.T) {
 		// leader-crash episode: the replica that accepted (and proposed) the transactions goes down shortly afterwards,
 		// while its entries may be appended on the others but not committed yet
 		leaderCrash := !noCrash && size == 3 && (rapid.IntRange(0, 2).Draw(t, "leaderCrash") == 0 || forceLC)
-		slowGossip := leaderCrash && rapid.IntRange(0, 2).Draw(t, "slowGossip") != 0
+		interregnum := leaderCrash && rapid.IntRange(0, 2).Draw(t, "interregnum") != 0
+		deafLeader := interregnum && rapid.IntRange(0, 3).Draw(t, "deafLeader") != 0
+		slowGossip := leaderCrash && !deafLeader && rapid.IntRange(0, 2).Draw(t, "slowGossip") != 0
 		if slowGossip {
 			// ... and the gossip of these transactions is slow: the others see them in a log entry first and get the
 			// broadcast after the leader change
@@ -487,6 +519,14 @@ func c20RaftProperty(t *rapid.T) {
 			net.holdTxUntil = time.Now().Add(d)
 			net.mu.Unlock()
 			ops = append(ops, fmt.Sprintf("round %d: transaction broadcasts held back for %v", rd, d))
+		}
+		if deafLeader {
+			// the replica that takes the transactions does not hear the others any more (its own messages still arrive):
+			// what it proposes is appended by the others and never committed by it
+			net.mu.Lock()
+			net.deaf[entry.id] = true
+			net.mu.Unlock()
+			ops = append(ops, fmt.Sprintf("round %d: replica %d does not receive anything from now on", rd, entry.id))
 		}
 		if cnt == 0 {
 			cnt = rapid.IntRange(1, 5).Draw(t, "txs")
@@ -498,6 +538,9 @@ func c20RaftProperty(t *rapid.T) {
 			waits := []int{0, 1, 2, 3, 5, 8, 12, 20, 40, 80, 120}
 			if slowGossip {
 				waits = waits[:8]
+			}
+			if deafLeader {
+				waits = []int{5, 12, 20, 40, 60} // time for its proposal to reach the others
 			}
 			time.Sleep(time.Duration(rapid.SampledFrom(waits).Draw(t, "shortWaitMs")) * time.Millisecond)
 		} else {
@@ -521,8 +564,66 @@ func c20RaftProperty(t *rapid.T) {
 			}
 			ops = append(ops, fmt.Sprintf("crash replica %d at executed height %d, restart with applied=%d @%dms", victim.id, victim.stub.chainMeta().Height, victim.stub.chainMeta().Height, time.Since(processStart).Milliseconds()))
 			victim.crash()
+			net.mu.Lock()
+			delete(net.deaf, victim.id)
+			net.mu.Unlock()
 			if victim.mustReach > victim.stub.chainMeta().Height {
 				crashWithQueued++
+			}
+			if leaderCrash && interregnum {
+				// transactions reach a surviving replica before a new leader is elected: the leader-to-be holds the old
+				// leader's last entries (appended, their commit not heard of) and finds these transactions next to the
+				// in-flight ones in its pool the moment it is elected
+				alt := reps[rapid.IntRange(0, size-1).Draw(t, "interregnumVia")]
+				if alt.id == victim.id {
+					alt = reps[(int(victim.id))%size] // the next replica
+				}
+				via = alt
+				k := rapid.IntRange(1, 4).Draw(t, "interregnumTxs")
+				olderTS = rapid.Bool().Draw(t, "interregnumOlderTS")
+				submit(k)
+				olderTS = false
+				ops = append(ops, fmt.Sprintf("round %d: %d transactions via replica %d before a new leader is elected (next nonces %v) @%dms", rd, k, alt.id, next, time.Since(processStart).Milliseconds()))
+				via = entry
+				interregnums++
+			}
+			if leaderCrash && deafLeader && rapid.IntRange(0, 3).Draw(t, "mutedNewLeader") != 0 {
+				// the next leader is elected (votes and heartbeats arrive) but its log replication is lost for a while: the
+				// old leader's last entries stay appended and uncommitted on it while clients hand it transactions, some of
+				// them with older timestamps than the in-flight ones
+				d := time.Duration(rapid.IntRange(300, 900).Draw(t, "noAppendMs")) * time.Millisecond
+				net.mu.Lock()
+				net.dropAppUntil = time.Now().Add(d)
+				net.mu.Unlock()
+				ops = append(ops, fmt.Sprintf("round %d: log replication messages are lost for %v @%dms", rd, d, time.Since(processStart).Milliseconds()))
+				until := time.Now().Add(d)
+				var nl *raftReplica
+				for nl == nil && time.Now().Before(until.Add(-100*time.Millisecond)) {
+					for _, r := range reps {
+						net.mu.Lock()
+						alive, n := r.alive, r.node
+						net.mu.Unlock()
+						if r.id != victim.id && alive && n != nil && etcdraft.VerifIsLeader(n.(*etcdraft.Node)) {
+							nl = r
+						}
+					}
+					if nl == nil {
+						time.Sleep(5 * time.Millisecond)
+					}
+				}
+				if nl != nil {
+					via = nl
+					k := rapid.IntRange(1, 4).Draw(t, "mutedLeaderTxs")
+					olderTS = rapid.IntRange(0, 3).Draw(t, "mutedLeaderOlderTS") != 0
+					submit(k)
+					olderTS = false
+					ops = append(ops, fmt.Sprintf("round %d: %d transactions via the new leader %d while it cannot replicate (next nonces %v) @%dms", rd, k, nl.id, next, time.Since(processStart).Milliseconds()))
+					via = entry
+					mutedLeaders++
+				}
+				if w := time.Until(until); w > 0 {
+					time.Sleep(w)
+				}
 			}
 			catchUp := !leaderCrash && size == 3 && snap < 1000 && rapid.IntRange(0, 2).Draw(t, "catchUpCrash") == 0
 			if catchUp {
@@ -670,6 +771,12 @@ func c20RaftProperty(t *rapid.T) {
 	}
 	if net.partitions > 0 {
 		cls = append(cls, "raft-follower-partitioned")
+	}
+	if mutedLeaders > 0 {
+		cls = append(cls, "raft-new-leader-gets-transactions-while-its-appends-are-lost")
+	}
+	if interregnums > 0 {
+		cls = append(cls, "raft-transactions-between-leader-crash-and-election")
 	}
 	if leaderCrashes > 0 {
 		cls = append(cls, "raft-accepting-leader-crashed")
